@@ -67,6 +67,9 @@ var c20Binds = []struct{ key, action string }{
 	{"alt-n", "half-page-up"}, {"alt-o", "pos(2)"},
 	// the input is replaced: the line under the cursor keeps its number but not its text
 	{"alt-p", "reload(GEN 1)"}, {"alt-q", "reload-sync(GEN 0)"},
+	// things that move the line under the cursor without a cursor key
+	{"alt-r", "toggle-track"}, {"alt-s", "toggle-sort"}, {"alt-t", "exclude"}, {"alt-u", "toggle-header"}, {"alt-v", "change-query(ab)"},
+	{"alt-w", "track-current"}, {"alt-x", "change-header(h)"},
 }
 
 func genC20Plan(r *zsim.Rng) *sysPlan {
